@@ -185,6 +185,65 @@ func layout(t *canvas.Text) string {
 	return sb.String()
 }
 
+// coincident tells whether a sweep-line job has two contours that coincide (the same vertices in the same or in reverse order), within one operand or between the two. Such inputs are in the finding classes of C01 (F01d) and C02 (F02a); on some of them a tolerance square keeps a reference to a removed status node, and what the call returns then depends on whether that node has been recycled from the pool (finding F20a).
+func coincident(j Job) bool {
+	if j.Kind != "bool" && j.Kind != "settle" {
+		return false
+	}
+	seen := map[string]bool{}
+	dup := false
+	add := func(ps gen.PathSpec) {
+		var cur []string
+		flush := func() {
+			if len(cur) < 2 {
+				cur = nil
+				return
+			}
+			// canonical form: rotate to the smallest vertex, take the lexicographically smaller of both directions
+			canon := func(v []string) string {
+				best := ""
+				for r := range v {
+					t := strings.Join(append(append([]string{}, v[r:]...), v[:r]...), " ")
+					if best == "" || t < best {
+						best = t
+					}
+				}
+				return best
+			}
+			rev := make([]string, len(cur))
+			for i := range cur {
+				rev[len(cur)-1-i] = cur[i]
+			}
+			a, b := canon(cur), canon(rev)
+			if b < a {
+				a = b
+			}
+			if seen[a] {
+				dup = true
+			}
+			seen[a] = true
+			cur = nil
+		}
+		for _, c := range ps.Cmds {
+			switch c.Op {
+			case "M":
+				flush()
+				cur = append(cur, fmt.Sprintf("%.6f,%.6f", c.A[0], c.A[1]))
+			case "z":
+			default:
+				n := len(c.A)
+				cur = append(cur, fmt.Sprintf("%s%.6f,%.6f", c.Op, c.A[n-2], c.A[n-1]))
+			}
+		}
+		flush()
+	}
+	add(j.P)
+	if j.Kind == "bool" {
+		add(j.Q)
+	}
+	return dup
+}
+
 func clip(s string) string {
 	if len(s) > 160 {
 		return s[:160] + "..."
@@ -232,11 +291,17 @@ func checkCase(c Case, r *vf.R) error {
 	// 2. the same calls in reverse order and once more forwards: what ran before must not matter
 	for i := len(c.Jobs) - 1; i >= 0; i-- {
 		if got := run(c.Jobs[i]); got != ref[i] {
+			if r.Excluded("F20a", coincident(c.Jobs[i])) {
+				continue
+			}
 			return vf.Errorf("job %d (%s) returns a different result when the jobs are run in reverse order (after %d other calls):\n  alone:  %s\n  later:  %s", i, c.Jobs[i].Kind, len(c.Jobs)-1-i+len(c.Jobs), clip(ref[i]), clip(got))
 		}
 	}
 	for i, j := range c.Jobs {
 		if got := run(j); got != ref[i] {
+			if r.Excluded("F20a", coincident(j)) {
+				continue
+			}
 			return vf.Errorf("job %d (%s) returns a different result on the third sequential run:\n  first:  %s\n  third:  %s", i, j.Kind, clip(ref[i]), clip(got))
 		}
 	}
@@ -275,6 +340,14 @@ func checkCase(c Case, r *vf.R) error {
 		}
 		return vf.Errorf("the race detector reports a data race while %d goroutines run %d independent jobs:\n%s", c.Goroutines, len(c.Jobs), strings.Join(lines, "\n"))
 	}
+	var real []bad
+	for _, b := range bads {
+		if r.Excluded("F20a", coincident(c.Jobs[b.job])) {
+			continue
+		}
+		real = append(real, b)
+	}
+	bads = real
 	if len(bads) > 0 {
 		b := bads[0]
 		return vf.Errorf("%d of %d concurrent calls return a result different from the call run alone; e.g. job %d (%s):\n  alone:       %s\n  concurrent:  %s", len(bads), c.Goroutines*c.Reps*len(c.Jobs), b.job, c.Jobs[b.job].Kind, clip(ref[b.job]), clip(b.got))
